@@ -4,7 +4,9 @@
     (shared_ptr): child lists, reset -> variable / test variable, variable -> units, and the handles held by the
     caller.  Weak references (weak_ptr): parent, equivalent variables.  An object exists as long as it is
     reachable from a handle over strong references; [gc] is the model of destruction: the lists of a destroyed
-    object vanish and weak references to it read as null (weak_ptr::lock()).
+    object vanish and weak references to it read as null (weak_ptr::lock()).  Every call that is performed ends with
+    [gc] (objects without a reference do not exist at any time in the library); a refusing call returns the state
+    it was given.
 
     Transcribed from /repo/src (as repaired by the C09 "fix:" commits; [fixed = false] gives the code before them):
       componententity.cpp  addComponent doAddComponent removeComponent x3 takeComponent x2 replaceComponent x3
@@ -294,7 +296,7 @@ Section Step.
   Definition add_plain (s : state) (K : ck) (k : nat) (x : option nat) : outcome :=
     match x with
     | None => Ok s (RBool false)
-    | Some c => Ok (attach s K k c) (RBool true)
+    | Some c => Ok (gc (attach s K k c)) (RBool true)
     end.
 
   (** ComponentEntity::addComponent + Model::doAddComponent / Component::doAddComponent *)
@@ -302,13 +304,13 @@ Section Step.
     match x with
     | None => Ok s (RBool false)
     | Some c =>
-        if kind_is s k KModel then Ok (attach s CComps k c) (RBool true)
+        if kind_is s k KModel then Ok (gc (attach s CComps k c)) (RBool true)
         else if fixed then
           if Nat.eqb k c then Ok s (RBool false)
           else match has_ancestor s (fuel_of s) k c with
                | None => Crash
                | Some true => Ok s (RBool false)
-               | Some false => Ok (attach s CComps k c) (RBool true)
+               | Some false => Ok (gc (attach s CComps k c)) (RBool true)
                end
         else
           match parent_of s c with
@@ -316,13 +318,13 @@ Section Step.
               match has_ancestor s (fuel_of s) k c with
               | None => Crash
               | Some true => Ok s (RBool false)
-              | Some false => Ok (attach s CComps k c) (RBool true)
+              | Some false => Ok (gc (attach s CComps k c)) (RBool true)
               end
           | None =>
               match has_ancestor s (fuel_of s) k c with
               | None => Crash
               | Some true => Ok s (RBool false)
-              | Some false => if Nat.eqb k c then Ok s (RBool false) else Ok (attach s CComps k c) (RBool true)
+              | Some false => if Nat.eqb k c then Ok s (RBool false) else Ok (gc (attach s CComps k c)) (RBool true)
               end
           end
     end.
@@ -429,7 +431,7 @@ Section Step.
   (** take*: the caller now holds the child *)
   Definition fin_take (s : state) (r : local (state * nat)) : outcome :=
     match r with
-    | LDone (s', x) => Ok (add_handle s' x) (RObj (Some x))
+    | LDone (s', x) => Ok (gc (add_handle s' x)) (RObj (Some x))
     | LRefused => Ok s (RObj None)
     | LCrash => Crash
     end.
@@ -563,26 +565,26 @@ Section Step.
     | AddEquivalence a b =>
         if oarg_ok s a KVar && oarg_ok s b KVar
         then match a, b with
-             | Some x, Some y => let '(s', r) := add_equivalence s x y in Ok s' (RBool r)
+             | Some x, Some y => let '(s', r) := add_equivalence s x y in Ok (gc s') (RBool r)
              | _, _ => Ok s (RBool false)
              end
         else ill s
     | AddEquivalence4 a b =>
         if oarg_ok s a KVar && oarg_ok s b KVar
         then match a, b with
-             | Some x, Some y => let '(s', r) := add_equivalence s x y in Ok s' (RBool r)
+             | Some x, Some y => let '(s', r) := add_equivalence s x y in Ok (gc s') (RBool r)
              | _, _ => if fixed then Ok s (RBool false) else Crash   (* before the fix: variable1->pFunc() on null *)
              end
         else ill s
     | RemoveEquivalence a b =>
         if oarg_ok s a KVar && oarg_ok s b KVar
         then match a, b with
-             | Some x, Some y => let '(s', r) := remove_equivalence s x y in Ok s' (RBool r)
+             | Some x, Some y => let '(s', r) := remove_equivalence s x y in Ok (gc s') (RBool r)
              | _, _ => Ok s (RBool false)
              end
         else ill s
     | RemoveAllEquivalences v =>
-        if arg_ok s v KVar then Ok (remove_all_equivalences s v) RUnit else ill s
+        if arg_ok s v KVar then Ok (gc (remove_all_equivalences s v)) RUnit else ill s
 
     | SetUnits v u =>
         if arg_ok s v KVar && oarg_ok s u KUnits then Ok (gc (upd s v (set_vunits u))) RUnit else ill s
